@@ -4,12 +4,14 @@ import NmVerif.Linalg
 import NmVerif.Lemmas.LinalgList
 import NmVerif.Lemmas.LinalgMatmul
 import NmVerif.Lemmas.LinalgMatmulV2
+import NmVerif.Lemmas.LinalgMatmul1d
 import NmVerif.Lemmas.LinalgDot
 import NmVerif.Lemmas.LinalgTrace
 import NmVerif.Lemmas.LinalgTensordot
 import NmVerif.Lemmas.LinalgSmall
 import NmVerif.Lemmas.LinalgKron
 import NmVerif.Lemmas.LinalgRefusal
+import NmVerif.Lemmas.LinalgChecked
 /-
   C16 — Linear-algebra routines equal their mathematical definitions.
   Only property statements (+ non-vacuity examples, counterexample theorems) live here; the proofs are in
@@ -34,18 +36,23 @@ example : shapeMatmul [2, 1, 3, 4] [5, 4, 2] = some [2, 5, 3, 2] := by decide
 example : shapeMatmul [4] [3, 4, 2] = some [3, 2] := by decide
 example : shapeMatmul [2, 3] [4, 2] = none := by decide
 
-/-- `view::matmul` (slicing implementation), both operands of rank ≥ 2, any batch ranks / broadcast pattern:
-    the shape is NumPy's and the terms summed for `out[β…, i, j]` are exactly
-    `a[β_a…, i, k] · b[β_b…, k, j]` for `k = 0, …, K-1`, in this order. -/
-theorem matmul_elem_eq_sum (sa sb dst : Shape) (ha : 2 ≤ sa.length) (hb : 2 ≤ sb.length)
+/-- `view::matmul` (slicing implementation), every pair of operand shapes of rank ≥ 1 that NumPy accepts — any batch ranks /
+    broadcast pattern, 1-d promotion on either side (fix C16-matmul-1d-operand: a 1-d lhs is the row, a 1-d rhs the column,
+    the result has no coordinate for it): the shape is NumPy's and the terms summed for `out[β…, i, j]` are exactly
+    `a[β_a…, i, k] · b[β_b…, k, j]` for `k = 0, …, K-1`, in this order (the `i` / `j` coordinate absent for a 1-d lhs /
+    rhs); no element access leaves the result index (`some`). -/
+theorem matmul_elem_eq_sum (sa sb dst : Shape) (ha : 1 ≤ sa.length) (hb : 1 ≤ sb.length)
     (hacc : specMatmulShape sa sb = some dst) :
     ∃ r, matmulV1 sa sb = some r ∧ r.shape = dst ∧
       ∀ d, InShape d dst → r.get d = some (specMatmulTerms sa sb d) :=
-  matmulV1_eq_spec sa sb dst ha hb hacc
+  matmulV1_eq_spec_all sa sb dst ha hb hacc
 
 example : specMatmulShape [2, 1, 2, 3] [4, 3, 2] = some [2, 4, 2, 2] := by decide
 example : specMatmulTerms [2, 1, 2, 3] [4, 3, 2] [1, 3, 0, 1] =
     [([1, 0, 0, 0], [3, 0, 1]), ([1, 0, 0, 1], [3, 1, 1]), ([1, 0, 0, 2], [3, 2, 1])] := by decide
+-- 1-d promotion on either side
+example : specMatmulShape [3] [2, 3, 2] = some [2, 2] ∧ specMatmulShape [2, 2, 3] [3] = some [2, 2] ∧ specMatmulShape [3] [3] = some [] := by decide
+example : specMatmulTerms [2, 2, 3] [3] [1, 0] = [([1, 0, 0], [0]), ([1, 0, 1], [1]), ([1, 0, 2], [2])] := by decide
 
 /-- `view::matmulv2` (tile / reshape / transpose / reshape / multiply / sum pipeline) is NumPy's matmul on every accepted
     pair of operand shapes of rank ≥ 1 with positive extents — batch broadcasting and 1-d promotion on either side
@@ -53,34 +60,49 @@ example : specMatmulTerms [2, 1, 2, 3] [4, 3, 2] [1, 3, 0, 1] =
     in order (the `i` / `j` coordinate absent for a 1-d lhs / rhs). -/
 theorem matmulv2_eq_def (sa sb dst : Shape) (ha : 1 ≤ sa.length) (hb : 1 ≤ sb.length) (hpa : Pos sa) (hpb : Pos sb)
     (hacc : specMatmulShape sa sb = some dst) :
-    ∃ r, matmulV2 sa sb = some r ∧ r.shape = dst ∧ ∀ d, InShape d dst → r.get d = specMatmulTerms sa sb d :=
-  matmulV2_eq_spec sa sb dst ha hb hpa hpb hacc
+    ∃ r, matmulV2C sa sb = some r ∧ r.shape = dst ∧ ∀ d, InShape d dst → r.get d = specMatmulTerms sa sb d :=
+  matmulV2C_eq_spec sa sb dst ha hb hpa hpb hacc
 
 example : specMatmulShape [3] [2, 3, 2] = some [2, 2] ∧ Pos [3] ∧ Pos [2, 3, 2] := by decide
 example : specMatmulTerms [3] [2, 3, 2] [1, 0] = [([0], [1, 0, 0]), ([1], [1, 1, 0]), ([2], [1, 2, 0])] := by decide
 
-/-- both implementations sum the same terms in the same order wherever `view::matmul` works (ranks ≥ 2) -/
-theorem matmulv2_eq_matmul (sa sb dst : Shape) (ha : 2 ≤ sa.length) (hb : 2 ≤ sb.length) (hpa : Pos sa) (hpb : Pos sb)
+/-- both implementations sum the same terms in the same order on every accepted pair of operand shapes of rank ≥ 1 -/
+theorem matmulv2_eq_matmul (sa sb dst : Shape) (ha : 1 ≤ sa.length) (hb : 1 ≤ sb.length) (hpa : Pos sa) (hpb : Pos sb)
     (hacc : specMatmulShape sa sb = some dst) :
-    ∃ r1 r2, matmulV1 sa sb = some r1 ∧ matmulV2 sa sb = some r2 ∧ r1.shape = r2.shape ∧
+    ∃ r1 r2, matmulV1 sa sb = some r1 ∧ matmulV2C sa sb = some r2 ∧ r1.shape = r2.shape ∧
       ∀ d, InShape d dst → r1.get d = some (r2.get d) := by
-  obtain ⟨r1, h1, s1, g1⟩ := matmulV1_eq_spec sa sb dst ha hb hacc
-  obtain ⟨r2, h2, s2, g2⟩ := matmulV2_eq_spec sa sb dst (by omega) (by omega) hpa hpb hacc
+  obtain ⟨r1, h1, s1, g1⟩ := matmulV1_eq_spec_all sa sb dst ha hb hacc
+  obtain ⟨r2, h2, s2, g2⟩ := matmulV2C_eq_spec sa sb dst ha hb hpa hpb hacc
   exact ⟨r1, r2, h1, h2, s1.trans s2.symm, fun d hd => by rw [g1 d hd, g2 d hd]⟩
+
+example : specMatmulShape [3] [2, 3, 2] = some [2, 2] ∧ Pos [3] ∧ Pos [2, 3, 2] := by decide
 
 /-- value form: for any integer operand data the element of `matmulv2` is `Σ_k A[…]·B[…]` over NumPy's terms -/
 theorem matmulv2_value (sa sb dst : Shape) (ha : 1 ≤ sa.length) (hb : 1 ≤ sb.length) (hpa : Pos sa) (hpb : Pos sb)
     (hacc : specMatmulShape sa sb = some dst) (A B : Idx → Int) :
-    ∃ r, matmulV2 sa sb = some r ∧ ∀ d, InShape d dst →
+    ∃ r, matmulV2C sa sb = some r ∧ ∀ d, InShape d dst →
       valueAt A B (r.get d) = valueAt A B (specMatmulTerms sa sb d) := by
-  obtain ⟨r, h, _, g⟩ := matmulV2_eq_spec sa sb dst ha hb hpa hpb hacc
+  obtain ⟨r, h, _, g⟩ := matmulV2C_eq_spec sa sb dst ha hb hpa hpb hacc
   exact ⟨r, h, fun d hd => by rw [g d hd]⟩
 
-/-- the unchanged `view::matmul` has no working 1-d promotion: the slicing reads `at(indices, -2)` of a 1-entry index
-    (known finding matmul.v1-1d-operand); NumPy's answer is the single sum `Σ_k a[k]·b[k]` -/
-theorem matmul_v1_1d_counterexample :
-    (matmulV1 [3] [3]).map (fun r => r.get []) = some none ∧
-    (specMatmul [3] [3]).map (fun r => r.get []) = some [([0], [0]), ([1], [1]), ([2], [2])] := by decide
+/-- value form for `view::matmul`: for any integer operand data the element is `Σ_k A[…]·B[…]` over NumPy's terms -/
+theorem matmul_value (sa sb dst : Shape) (ha : 1 ≤ sa.length) (hb : 1 ≤ sb.length)
+    (hacc : specMatmulShape sa sb = some dst) (A B : Idx → Int) :
+    ∃ r, matmulV1 sa sb = some r ∧ ∀ d, InShape d dst →
+      (r.get d).map (valueAt A B) = some (valueAt A B (specMatmulTerms sa sb d)) := by
+  obtain ⟨r, h, _, g⟩ := matmulV1_eq_spec_all sa sb dst ha hb hacc
+  exact ⟨r, h, fun d hd => by rw [g d hd]; rfl⟩
+
+example : specMatmulShape [2, 3] [3] = some [2] ∧ specMatmulTerms [2, 3] [3] [1] = [([1, 0], [0]), ([1, 1], [1]), ([1, 2], [2])] := by decide
+
+/-- regression instance of the repaired defect matmul.v1-1d-operand (fix C16-matmul-1d-operand): `view::matmul` of two 1-d
+    operands reads `Σ_k a[k]·b[k]` (formerly `at(indices,-2)` of an empty index: every element access out of range) -/
+theorem matmul_v1_1d_regression :
+    (matmulV1 [3] [3]).map (fun r => r.get []) = some (some [([0], [0]), ([1], [1]), ([2], [2])]) ∧
+    (specMatmul [3] [3]).map (fun r => r.get []) = some [([0], [0]), ([1], [1]), ([2], [2])] ∧
+    (matmulV1 [3] [3, 2]).map (fun r => r.get [1]) = some (some [([0], [0, 1]), ([1], [1, 1]), ([2], [2, 1])]) ∧
+    (matmulV1 [2, 3] [3]).map (fun r => r.get [1]) = some (some [([1, 0], [0]), ([1, 1], [1]), ([1, 2], [2])]) :=
+  ⟨by decide, by decide, by decide, by decide⟩
 
 /-! ### refusals: operand pairs NumPy does not accept -/
 
@@ -100,20 +122,63 @@ theorem dot_isSome_iff (sa sb : Shape) (ha : 1 ≤ sa.length) (hb : 1 ≤ sb.len
 example : (dot [2, 1] [3, 2]).isSome = false ∧ (specDot [2, 1] [3, 2]).isSome = false ∧ (dot [2, 3] [4, 3, 2]).isSome = true ∧
     Pos [2, 1] ∧ Pos [3, 2] := by decide
 
-/-- the unchanged `view::matmulv2` broadcasts a contracted axis of extent 1 against its partner (the `multiply` of the
-    pipeline) where NumPy raises — known finding matmulv2.contraction-extent-broadcast; `view::matmul` refuses the same pair -/
-theorem matmulv2_contraction_counterexample :
-    (matmulV2 [2, 1] [3, 2]).map (·.shape) = some [2, 2] ∧ specMatmulShape [2, 1] [3, 2] = none ∧
-    (matmulV1 [2, 1] [3, 2]).isSome = false := by decide
+/-- `view::matmulv2` (repaired, fix C15-contraction-extent: `index::shape_matmul` is asked, as in `view::matmul`) answers a
+    value exactly on the operand pairs (ranks ≥ 1, positive extents) `np.matmul` accepts -/
+theorem matmulv2_isSome_iff (sa sb : Shape) (ha : 1 ≤ sa.length) (hb : 1 ≤ sb.length) (hpa : Pos sa) (hpb : Pos sb) :
+    (matmulV2C sa sb).isSome ↔ (specMatmulShape sa sb).isSome := matmulV2C_isSome_iff sa sb ha hb hpa hpb
 
-/-- the unchanged `view::inner`, `view::vecdot`, `view::tensordot` (integer and explicit axes) broadcast a contracted axis of
-    extent 1 against its partner where NumPy raises — known finding C16.contraction-extent-broadcast (= C15's class) -/
-theorem contraction_extent_counterexample :
-    ((inner [2, 1] [2, 3]).map (·.shape) = some [2, 2] ∧ (specInner [2, 1] [2, 3]).isSome = false) ∧
-    ((vecdot [2, 1] [2, 3]).map (·.shape) = some [2] ∧ (specVecdot [2, 1] [2, 3]).isSome = false) ∧
-    ((tensordotInt [2, 1] [3, 2] 1).map (·.shape) = some [2, 2] ∧ (specTensordot [2, 1] [3, 2] [1] [0]).isSome = false) ∧
-    ((tensordotAxes [2, 1] [3, 2] [-1] [0]).map (·.shape) = some [2, 2]) :=
-  ⟨by decide, by decide, by decide, by decide⟩
+example : (matmulV2C [2, 1] [3, 2]).isSome = false ∧ (matmulV2C [2, 3] [3, 2]).isSome = true ∧ Pos [2, 1] ∧ Pos [3, 2] := by decide
+
+/-- `view::inner` (repaired) answers a value exactly on the operand pairs (ranks ≥ 1, positive extents) `np.inner` accepts:
+    equal last extents — a last extent 1 is not broadcast against its partner -/
+theorem inner_isSome_iff (sa sb : Shape) (ha : 1 ≤ sa.length) (hb : 1 ≤ sb.length) (hpb : Pos sb) :
+    (innerC sa sb).isSome ↔ (specInner sa sb).isSome := innerC_isSome_iff sa sb ha hb hpb
+
+example : (innerC [2, 1] [2, 3]).isSome = false ∧ (innerC [2, 3] [4, 3]).isSome = true ∧ Pos [2, 3] := by decide
+
+/-- `view::vecdot` (repaired) answers a value exactly on the operand pairs (ranks ≥ 1) `np.vecdot` accepts: equal last
+    extents and leading axes that broadcast -/
+theorem vecdot_isSome_iff (sa sb : Shape) (ha : 1 ≤ sa.length) (hb : 1 ≤ sb.length) :
+    (vecdotC sa sb).isSome ↔ (specVecdot sa sb).isSome := vecdotC_isSome_iff sa sb ha hb
+
+example : (vecdotC [2, 1] [2, 3]).isSome = false ∧ (vecdotC [2, 1, 3] [4, 3]).isSome = true ∧ (vecdotC [2, 3] [3, 3]).isSome = false := by decide
+
+/-- `view::tensordot(a, b, n)` (repaired) answers a value exactly when `n` exceeds neither rank and the last `n` extents of
+    `a` ARE the first `n` extents of `b` (NumPy's rule; no broadcasting of a contracted extent 1, `Nothing` instead of an
+    out-of-range read for `n` beyond a rank) -/
+theorem tensordot_int_isSome_iff (sa sb : Shape) (n : Nat) (hpb : Pos sb) :
+    (tensordotIntC sa sb n).isSome ↔ (n ≤ sa.length ∧ n ≤ sb.length ∧ sa.drop (sa.length - n) = sb.take n) :=
+  tensordotIntC_isSome_iff sa sb n hpb
+
+example : (tensordotIntC [2, 1] [3, 2] 1).isSome = false ∧ (tensordotIntC [2] [2, 2] 2).isSome = false ∧
+    (tensordotIntC [2, 3, 4] [3, 4, 5] 2).isSome = true ∧ Pos [3, 4, 5] := by decide
+
+/-- `view::tensordot(a, b, (lhs_axes, rhs_axes))` (repaired) with valid axis lists (in range — normalisation succeeds —, no
+    axis listed twice, equal counts) answers a value exactly when `np.tensordot` accepts: the paired extents are equal -/
+theorem tensordot_isSome_iff (sa sb : Shape) (la ra : List Int) (la' ra' : List Nat)
+    (hla : la.mapM (normAxis · sa.length) = some la') (hra : ra.mapM (normAxis · sb.length) = some ra')
+    (hnda : la'.Nodup) (hndb : ra'.Nodup) (hlen : la.length = ra.length) (hpb : Pos sb) :
+    (tensordotAxesC sa sb la ra).isSome ↔ (specTensordot sa sb la' ra').isSome :=
+  tensordotAxesC_isSome_iff sa sb la ra la' ra' hla hra hnda hndb hlen hpb
+
+example : [(-1 : Int)].mapM (normAxis · 2) = some [1] ∧ [(0 : Int)].mapM (normAxis · 2) = some [0] ∧
+    (tensordotAxesC [2, 1] [3, 2] [-1] [0]).isSome = false ∧ (tensordotAxesC [2, 3] [3, 2] [-1] [0]).isSome = true := by decide
+
+/-- regression instance of the repaired defect matmulv2.contraction-extent-broadcast (fix C15-contraction-extent): the
+    pipeline alone pairs the contracted extent 1 with 3, the view refuses like NumPy and `view::matmul` -/
+theorem matmulv2_contraction_regression :
+    (matmulV2 [2, 1] [3, 2]).map (·.shape) = some [2, 2] ∧ matmulV2C [2, 1] [3, 2] = none ∧
+    specMatmulShape [2, 1] [3, 2] = none ∧ (matmulV1 [2, 1] [3, 2]).isSome = false := by decide
+
+/-- regression instances of the repaired defect C16.contraction-extent-broadcast (= C15.contraction-extent-broadcast) and
+    of C15.tensordot-axes-beyond-rank: `view::inner`, `view::vecdot`, `view::tensordot` (integer and explicit axes) refuse
+    a contracted extent 1 against another extent, and an integer `n` beyond a rank -/
+theorem contraction_extent_regression :
+    (innerC [2, 1] [2, 3] = none ∧ (specInner [2, 1] [2, 3]).isSome = false) ∧
+    (vecdotC [2, 1] [2, 3] = none ∧ (specVecdot [2, 1] [2, 3]).isSome = false) ∧
+    (tensordotIntC [2, 1] [3, 2] 1 = none ∧ (specTensordot [2, 1] [3, 2] [1] [0]).isSome = false) ∧
+    (tensordotAxesC [2, 1] [3, 2] [-1] [0] = none) ∧ (tensordotIntC [2] [2, 2] 2 = none) :=
+  ⟨by decide, by decide, by decide, by decide, by decide⟩
 
 /-! ### dot / inner / outer / vecdot
 
@@ -134,8 +199,8 @@ example : (specDot [2, 3] [4, 3, 5]).map (·.get [1, 2, 4]) =
 /-- `view::inner` = `np.inner`: `inner(a,b)[i…, j…] = Σ_k a[i…, k]·b[j…, k]`, shape `a.shape[:-1] ++ b.shape[:-1]` -/
 theorem inner_eq_def (sa sb : Shape) (s : Arr (List Term)) (ha : 1 ≤ sa.length) (hb : 1 ≤ sb.length) (hpb : Pos sb)
     (hacc : specInner sa sb = some s) :
-    ∃ r, inner sa sb = some r ∧ r.shape = s.shape ∧ ∀ d, InShape d s.shape → r.get d = s.get d :=
-  inner_eq_spec sa sb s ha hb hpb hacc
+    ∃ r, innerC sa sb = some r ∧ r.shape = s.shape ∧ ∀ d, InShape d s.shape → r.get d = s.get d :=
+  innerC_eq_spec sa sb s ha hb hpb hacc
 
 example : (specInner [2, 3] [4, 2, 3]).map (·.shape) = some [2, 4, 2] := by decide
 example : (specInner [2, 3] [4, 2, 3]).map (·.get [1, 3, 0]) =
@@ -153,8 +218,8 @@ example : (specOuter [2, 3] [2]).shape = [6, 2] ∧ (specOuter [2, 3] [2]).get [
     `out[β…] = Σ_k a[β_a…, k]·b[β_b…, k]` -/
 theorem vecdot_eq_def (sa sb : Shape) (s : Arr (List Term)) (ha : 1 ≤ sa.length) (hb : 1 ≤ sb.length)
     (hacc : specVecdot sa sb = some s) :
-    ∃ r, vecdot sa sb = some r ∧ r.shape = s.shape ∧ ∀ d, InShape d s.shape → r.get d = s.get d :=
-  vecdot_eq_spec sa sb s ha hb hacc
+    ∃ r, vecdotC sa sb = some r ∧ r.shape = s.shape ∧ ∀ d, InShape d s.shape → r.get d = s.get d :=
+  vecdotC_eq_spec sa sb s ha hb hacc
 
 example : (specVecdot [2, 1, 3] [4, 3]).map (·.shape) = some [2, 4] := by decide
 example : (specVecdot [2, 1, 3] [4, 3]).map (·.get [1, 2]) =
@@ -194,12 +259,12 @@ example : (trace [2, 3, 3] (-1) 1 2).map (fun r => (r.shape, r.get [0], r.get [1
     `FA ++ FB` and `out[p…, q…] = Σ_c a[p…, c…] · b[c…, q…]`, `c` running over exactly the contracted block `C` in
     row-major order — the last `n` axes of `a` paired in order with the first `n` axes of `b`. -/
 theorem tensordot_int_eq_def (FA FB C : Shape) (hpb : Pos FB) :
-    ∃ r, tensordotInt (FA ++ C) (C ++ FB) C.length = some r ∧ r.shape = FA ++ FB ∧
+    ∃ r, tensordotIntC (FA ++ C) (C ++ FB) C.length = some r ∧ r.shape = FA ++ FB ∧
       ∀ p q, InShape p FA → InShape q FB →
         r.get (p ++ q) = (allIdx C).map (fun c => (p ++ c, c ++ q)) :=
-  tensordotInt_elem FA FB C hpb
+  tensordotIntC_elem FA FB C hpb
 
-example : (tensordotInt [2, 3, 4] [3, 4, 5] 2).map (fun r => (r.shape, r.get [1, 4])) =
+example : (tensordotIntC [2, 3, 4] [3, 4, 5] 2).map (fun r => (r.shape, r.get [1, 4])) =
     some ([2, 5], (allIdx [3, 4]).map (fun c => ([1] ++ c, c ++ [4]))) := by decide
 
 /-- `view::tensordot(a, b, (lhs_axes, rhs_axes))` = `np.tensordot` for every operand rank, every pair of axis lists that
@@ -210,14 +275,15 @@ example : (tensordotInt [2, 3, 4] [3, 4, 5] 2).map (fun r => (r.shape, r.get [1,
 theorem tensordot_eq_def (sa sb : Shape) (la ra : List Int) (la' ra' : List Nat) (s : Arr (List Term))
     (hla : la.mapM (normAxis · sa.length) = some la') (hra : ra.mapM (normAxis · sb.length) = some ra')
     (hpb : Pos sb) (hacc : specTensordot sa sb la' ra' = some s) :
-    ∃ r, tensordotAxes sa sb la ra = some r ∧ r.shape = s.shape ∧ ∀ d, InShape d s.shape → r.get d = s.get d :=
-  tensordotAxes_eq_spec sa sb la ra la' ra' s hla hra hpb hacc
+    ∃ r, tensordotAxesC sa sb la ra = some r ∧ r.shape = s.shape ∧ ∀ d, InShape d s.shape → r.get d = s.get d :=
+  tensordotAxesC_eq_spec sa sb la ra la' ra' s hla hra hpb hacc
 
 example : [(-3 : Int), 2].mapM (normAxis · 3) = some [0, 2] ∧ [(2 : Int), -2].mapM (normAxis · 3) = some [2, 1] ∧ Pos [5, 4, 2] ∧
     (specTensordot [2, 3, 4] [5, 4, 2] [0, 2] [2, 1]).map (fun s => (s.shape, (s.get [1, 3]).take 3)) =
       some ([3, 5], [([0, 1, 0], [3, 0, 0]), ([0, 1, 1], [3, 1, 0]), ([0, 1, 2], [3, 2, 0])]) := by decide
 
-/-- auxiliary form: shape and term structure with the two transposes still in `scatter` form -/
+/-- auxiliary form, about the pipeline of `view::tensordot` (`tensordotAxes`, before its closing extent check): shape and
+    term structure with the two transposes still in `scatter` form -/
 theorem tensordot_axes_term_structure (sa sb : Shape) (la ra : List Int) (la' ra' : List Nat) (FA FB C : Shape)
     (hla : la.mapM (normAxis · sa.length) = some la') (hra : ra.mapM (normAxis · sb.length) = some ra')
     (hta : (moveToEnd sa.length la').mapM (fun k => sa[k]?) = some (FA ++ C))
